@@ -4,6 +4,7 @@ import (
 	"bytes"
 	"errors"
 	"fmt"
+	"io"
 	"math/rand"
 	"testing"
 
@@ -17,7 +18,7 @@ func TestC16(t *testing.T) {
 	mon.Main(t, mon.Check{
 		ID:          "C16",
 		Level:       "exploration",
-		Rule:        "(R) read fragmentation: the same handshake (same static keys, passphrase, deterministic ephemeral keys, version ranges, auth payload 0..1 MiB) is run unfragmented and over streams whose every Read returns at most k bytes, k in {1,2,3,7,16,33,100} or a PRNG sequence, for both roles, XX and KK; afterwards records of sizes {0,1,15,16,17,100,65535} are read through the same fragmenting stream. Oracle: identical outcome (success, negotiated version, payload, traffic keys, plaintexts). (P) pipelining: the party that sends the last act writes its first record right behind it and both arrive in one chunk (read caps 0/1/7/64/100/4096); the record must be read back. (W) partial writes: a writer that accepts bytes only up to the next cut of a partition and then returns a timeout error; for payload sizes {0,1,15,16,17,100} all two-way and all three-way splits of the record's 18+len+16 wire bytes, PRNG finer partitions for 1000 and 65535 bytes; Flush is repeated until it succeeds and WriteMessage is attempted in between; for every other partition a record of the peer is read on the same Machine after the first interruption (full duplex). Oracle: the bytes emitted, concatenated, equal the single-shot encoding produced by a bit-identical twin session; the counts returned by the Flush calls add up to len(plaintext); every WriteMessage between the first and the last Flush returns ErrMessageNotFlushed and changes nothing; the peer decrypts the plaintext. Non-trivial = every case (each fragments); distinct = (kind, sizes, fragmentation).",
+		Rule:        "(R) read fragmentation: the same handshake (same static keys, passphrase, deterministic ephemeral keys, version ranges, auth payload 0..1 MiB) is run unfragmented and over streams whose every Read returns at most k bytes, k in {1,2,3,7,16,33,100} or a PRNG sequence, for both roles, XX and KK; afterwards records of sizes {0,1,15,16,17,100,65535} are read through the same fragmenting stream (in a third of the cases the stream reports io.EOF together with its last bytes, as an io.Reader may). Oracle: identical outcome (success, negotiated version, payload, traffic keys, plaintexts). (P) pipelining: the party that sends the last act writes its first record right behind it and both arrive in one chunk (read caps 0/1/7/64/100/4096); the record must be read back. (W) partial writes: a writer that accepts bytes only up to the next cut of a partition and then returns a timeout error; for payload sizes {0,1,15,16,17,100} all two-way and all three-way splits of the record's 18+len+16 wire bytes, PRNG finer partitions for 1000 and 65535 bytes; Flush is repeated until it succeeds and WriteMessage is attempted in between; for every other partition a record of the peer is read on the same Machine after the first interruption (full duplex). Oracle: the bytes emitted, concatenated, equal the single-shot encoding produced by a bit-identical twin session; the counts returned by the Flush calls add up to len(plaintext); every WriteMessage between the first and the last Flush returns ErrMessageNotFlushed and changes nothing; the peer decrypts the plaintext. Non-trivial = every case (each fragments); distinct = (kind, sizes, fragmentation).",
 		Assumptions: []string{"twin sessions are made bit-identical through the EphemeralGen field of BrontideMachineConfig"},
 		Exhaustive:  false,
 		NCases: func(tier string) int {
@@ -146,7 +147,7 @@ func runC16Reads(c *mon.Case) {
 	for _, r := range recs {
 		stream = append(stream, r.Bytes()...)
 	}
-	rd := &fragReader{b: stream, max: readMax}
+	rd := &fragReader{b: stream, max: readMax, eofWithData: c.Idx%3 == 1}
 	for i := range plains {
 		p, err := fr2.S.M.ReadMessage(rd)
 		if err != nil || !bytes.Equal(p, plains[i]) {
@@ -164,10 +165,17 @@ func runC16Reads(c *mon.Case) {
 type fragReader struct {
 	b   []byte
 	max func() int
+	// eofWithData makes the Read that delivers the last bytes of the stream
+	// report io.EOF in the same call, as the io.Reader contract allows (a
+	// reader "may return the (non-nil) error from the same call").
+	eofWithData bool
 }
 
 func (f *fragReader) Read(p []byte) (int, error) {
 	if len(f.b) == 0 {
+		if f.eofWithData {
+			return 0, io.EOF
+		}
 		return 0, fmt.Errorf("stream exhausted")
 	}
 	n := len(p)
@@ -179,6 +187,9 @@ func (f *fragReader) Read(p []byte) (int, error) {
 	}
 	copy(p, f.b[:n])
 	f.b = f.b[n:]
+	if len(f.b) == 0 && f.eofWithData {
+		return n, io.EOF
+	}
 	return n, nil
 }
 
